@@ -12,6 +12,7 @@ import Bpp.NonceThm
 import Bpp.TotalityThm
 import Bpp.ApiThm
 import Bpp.LifecycleThm
+import Bpp.ScalarsThm
 /-! # Property theorems
 
 Only the property statements live here, one block per C-id, each about the **executable** model functions of
@@ -660,5 +661,48 @@ open Model.Codec in
 /-- proof bytes: degree byte, d1, A, A1, B, r1, s1, interleaved L/R -/
 theorem C19_layout_proof (p : Proof) :
     encode p = UInt8.ofNat p.tag :: (encodeScalars p.d1 ++ (p.a ++ (p.a1 ++ (p.b ++ (leBytes 32 p.r1 ++ (leBytes 32 p.s1 ++ encodePairs p.li p.ri)))))) := rfl
+
+/-! ## Scalar-level layer (C01, C02, C12, C16): the lists handed to the multiscalar multiplications
+
+The Rust never forms a per-proof contribution as a group element: it fills scalar vectors and makes one multiscalar
+multiplication over the interleaved, zero-padded static scalars and the dynamic ones. `Model.proofScalars`,
+`Model.staticScalars`, `Model.accumulate`, `Model.proverAStatic` model those lists (the harness compares them with the
+lists the real code passes to the MSM, element by element); the theorems below evaluate them. -/
+
+open Model in
+/-- **C02 (lists as coded).** For one proof, any capacity `n·m + extra` per generator kind: the static scalars
+    (interleaved, `2·extra` zeros) against the interleaved table plus the dynamic scalars against the dynamic points
+    evaluate to `Model.codeContribution` — hence, by `C02_contribution_eq`, to `w • R_spec`. -/
+theorem C02_scalars_eval (I : RangeInst F M) (π : ProofM F M) (y z : F) (es : List F) (e w : F) (extra : ℕ)
+    (hL : π.Ls.length = es.length) (hR : π.Rs.length = es.length) :
+    msmList (staticScalars (proofScalars I.n I.m I.t I.p π.r1 π.s1 π.d1 y z es e w).gi
+                           (proofScalars I.n I.m I.t I.p π.r1 π.s1 π.d1 y z es e w).hi (2 * extra))
+        (interleaveL ((List.range (I.n * I.m + extra)).map I.G) ((List.range (I.n * I.m + extra)).map I.H))
+      + msmList ((proofScalars I.n I.m I.t I.p π.r1 π.s1 π.d1 y z es e w).dyn ++
+                  ((proofScalars I.n I.m I.t I.p π.r1 π.s1 π.d1 y z es e w).gb ++
+                   [(proofScalars I.n I.m I.t I.p π.r1 π.s1 π.d1 y z es e w).hb]))
+                (proofPoints I.m I.V π ++ ((List.range I.t).map I.Gb ++ [I.hb]))
+      = codeContribution I π y z es e w :=
+  scalars_eval I π y z es e w extra hL hR
+
+open Model in
+/-- **C12 / C03 (shared table).** Accumulating the members' scalar vectors element-wise into one vector of the
+    largest member's length and multiplying once equals the sum of the members' own products over their own
+    prefixes of the table — members of different aggregation share one precomputed table. -/
+theorem C12_shared_table (maxN : ℕ) (cs : List (List F)) (ps : List M) (hp : ps.length = maxN)
+    (h : ∀ c ∈ cs, c.length ≤ maxN) :
+    msmList (accumulate maxN cs) ps = (cs.map (fun c => msmList c (ps.take c.length))).sum :=
+  accumulate_msm maxN cs ps hp h
+
+open Model in
+/-- **C01 / C12 (prover's first message as coded).** Interleaved bit scalars, zero padding and a table of any
+    capacity give the model prover's `A`. -/
+theorem C01_proverA_eval (I : RangeInst F M) (v p : ℕ → ℕ) (r : ℕ → ℕ → F) (α : ℕ → F) (dL dR : ℕ → ℕ → F) (rr ss : F)
+    (d η : ℕ → F) (y z : F) (es : List F) (e : F) (extra : ℕ) :
+    msmList (proverAStatic (F := F) I.n I.m (2 * extra) (fun j => v j - p j))
+        (interleaveL ((List.range (I.n * I.m + extra)).map I.G) ((List.range (I.n * I.m + extra)).map I.H))
+      + msmList ((List.range I.t).map α) ((List.range I.t).map I.Gb)
+      = (rangeProve I v p r α dL dR rr ss d η y z es e).A :=
+  proverA_eval I v p r α dL dR rr ss d η y z es e extra
 
 end Bpp
